@@ -35,6 +35,8 @@ func main() {
 		os.Exit(cmdReplay(os.Args[2:]))
 	case "gen":
 		os.Exit(cmdGen(os.Args[2:]))
+	case "c03child":
+		os.Exit(cmdC03Child(os.Args[2:]))
 	case "fingerprint":
 		os.Exit(cmdFingerprint(os.Args[2:]))
 	default:
